@@ -285,6 +285,170 @@ pub fn one_case(rng: &mut Rng, sink: &mut Sink, emit: bool) {
     }
 }
 
+/// A text made of the pieces that matter for `serialize_cdata` / `serialize_text(unescaped_gt)`: `]`, `]]`,
+/// `]]>`, `>` next to each other in every order (so that `]]` | `>` and `]` | `]>` fall on the borders of
+/// the pieces), CR (written as `&#xD;` BETWEEN two sections), the characters escaped in text but not in a
+/// section (`&`, `<`), ordinary letters.
+fn border_text(rng: &mut Rng) -> String {
+    const PIECES: [&str; 16] = ["]", "]]", "]]>", ">", "]>", "]]]", "]]]]>", ">>", "a", "b c", "\r", "\r\n", "&", "<", "]]>]]>", "\n"];
+    let n = 1 + rng.below(5);
+    let mut s = String::new();
+    for _ in 0..n {
+        let piece: &str = *rng.pick(&PIECES[..]);
+        s.push_str(piece);
+    }
+    s
+}
+
+fn retext(rng: &mut Rng, t: &mut GTree, listed: &[usize], under_listed: bool, sink: &mut Sink) {
+    if let GValue::Text(s) = &mut t.v {
+        if rng.chance(3, 4) {
+            *s = border_text(rng);
+        }
+        if s.contains("]]>") {
+            sink.stat(if under_listed { "rt.params.text-with-cdata-end.listed" } else { "rt.params.text-with-cdata-end.unlisted" });
+        }
+        if s.contains('\r') && under_listed {
+            sink.stat("rt.params.text-with-cr.listed");
+        }
+        return;
+    }
+    let here = matches!(&t.v, GValue::Element(n) if listed.contains(n));
+    // an element whose content does not end with a text node gets one half of the time
+    if matches!(t.v, GValue::Element(_)) && !matches!(t.kids.last(), Some(k) if matches!(k.v, GValue::Text(_))) && rng.chance(1, 2) {
+        t.kids.push(GTree::leaf(GValue::Text("x".to_string())));
+    }
+    for k in t.kids.iter_mut() {
+        retext(rng, k, listed, here, sink);
+    }
+}
+
+/// C01 under NON-DEFAULT token parameters (`cdata_section_elements`, `unescaped_gt`): serialise with them,
+/// parse the output back, compare the independent read-backs (oracle `C01:params-roundtrip-differs`), and give
+/// the model the same closed loop (request `paramrt <cdata> <gt> <frag> <tree>`: the string written and the
+/// tree it parses to).  Own generator stream, own `Xot`: the other cases of the suite are not disturbed.
+fn params_case(rng: &mut Rng, sink: &mut Sink) {
+    let mut xot = Xot::new();
+    let mut vocab = Vocab::standard(&mut xot);
+    let mut cfg = GenCfg::default_cfg();
+    cfg.max_depth = 2 + rng.below(3);
+    let fragment = rng.chance(1, 3);
+    let mut t = if fragment { gen_fragment(rng, &cfg) } else { gen_document(rng, &cfg) };
+    for k in t.kids.iter_mut() {
+        if let GValue::Element(_) = k.v {
+            let have: Vec<usize> = k.kids.iter().filter_map(|c| if let GValue::Namespace(p, _) = c.v { Some(p) } else { None }).collect();
+            let mut at = 0;
+            for (p, ns) in [(2usize, NS_A), (3, NS_B), (4, NS_C)] {
+                if !have.contains(&p) {
+                    k.kids.insert(at, GTree::leaf(GValue::Namespace(p, ns)));
+                    at += 1;
+                }
+            }
+        }
+    }
+    // most of the time no default-namespace declarations: they are what makes names unwritable
+    fn drop_default_ns(t: &mut GTree) {
+        t.kids.retain(|k| !matches!(k.v, GValue::Namespace(0, _)));
+        for k in t.kids.iter_mut() {
+            drop_default_ns(k);
+        }
+    }
+    if rng.chance(3, 4) {
+        drop_default_ns(&mut t);
+    }
+    // the parameter set: never the default one
+    let mut listed: Vec<usize> = match rng.below(4) {
+        0 => vec![],
+        1 => cfg.elem_names.clone(),
+        _ => cfg.elem_names.iter().copied().filter(|_| rng.chance(1, 2)).collect(),
+    };
+    let gt = if listed.is_empty() { true } else { rng.chance(1, 2) };
+    if rng.chance(1, 8) {
+        listed.push(15); // an attribute name: never the name of an element here
+    }
+    retext(rng, &mut t, &listed, false, sink);
+    let root = match build(&mut xot, &vocab, &t, true) {
+        Ok(r) => r,
+        Err(_) => {
+            sink.stat("rt.params.build-refused");
+            return;
+        }
+    };
+    // names without a usable prefix: let the crate repair the tree (C10), so that most cases serialise
+    if matches!(xot.to_string(root), Err(xot::Error::MissingPrefix(_))) && rng.chance(5, 6) {
+        if let Some(Ok(())) = crate::common::guarded(|| xot.create_missing_prefixes(root)) {
+            sink.stat("rt.params.prefixes-created");
+        }
+    }
+    let original = read_tree(&xot, &mut vocab, root);
+    let ids = if listed.is_empty() { "-".to_string() } else { listed.iter().map(|i| i.to_string()).collect::<Vec<_>>().join(",") };
+    let request = format!("paramrt {} {} {} {}", ids, gt as u8, fragment as u8, original.wire());
+    let params = xot::output::xml::Parameters {
+        cdata_section_elements: listed.iter().map(|i| vocab.name(*i)).collect(),
+        unescaped_gt: gt,
+        ..Default::default()
+    };
+    sink.emit(vocab.wire(), "ok".to_string());
+    let replay0 = vec![format!("tree {}", original.wire()), format!("cdata_section_elements {}", ids), format!("unescaped_gt {}", gt)];
+    let s = match crate::common::guarded(|| xot.serialize_xml_string(params.clone(), root)) {
+        None => {
+            sink.emit(request, "panic".to_string());
+            sink.fail("C01", "C01:params-serialisation-panics", "serialize_xml_string panicked", &replay0);
+            return;
+        }
+        Some(Err(e)) => {
+            sink.emit(request, crate::suite_ser::err_str(&e));
+            if matches!(e, xot::Error::MissingPrefix(_)) {
+                sink.stat("rt.params.missing-prefix");
+            } else {
+                sink.fail("C01", "C01:params-serialise-error", &format!("serialize_xml_string failed: {:?}", e), &replay0);
+            }
+            return;
+        }
+        Some(Ok(s)) => s,
+    };
+    sink.stat(&format!("rt.params.{}.gt-{}", if listed.is_empty() { "no-cdata-elements" } else { "cdata-elements" }, gt as u8));
+    let sections = s.matches("<![CDATA[").count();
+    sink.stat(&format!("rt.params.sections.{}", match sections { 0 => "0", 1 => "1", 2..=4 => "2-4", _ => "5+" }));
+    if s.contains("]]>&#xD;<![CDATA[") {
+        sink.stat("rt.params.cr-between-sections");
+    }
+    if s.contains("]]]]><![CDATA[>") {
+        sink.stat("rt.params.section-split-inside-cdata-end");
+    }
+    if s.contains("]]&gt;") {
+        sink.stat("rt.params.gt-escaped-after-brackets");
+    }
+    if gt && s.replace("]]>", "").contains('>') {
+        sink.stat("rt.params.raw-gt");
+    }
+    let mut replay = replay0.clone();
+    replay.push(format!("serialised {:?}", s));
+    let reparsed = crate::common::guarded(|| if fragment { xot.parse_fragment(&s) } else { xot.parse(&s) });
+    match reparsed {
+        None => {
+            sink.emit(request, format!("ok {} panic", crate::common::enc(&s)));
+            sink.fail("C01", "C01:params-roundtrip-differs", "the parser panics on the output", &replay);
+        }
+        Some(Err(e)) => {
+            sink.emit(request, format!("ok {} rejected", crate::common::enc(&s)));
+            sink.fail("C01", "C01:params-roundtrip-differs", &format!("the output does not parse: {:?}", e), &replay);
+        }
+        Some(Ok(r2)) => {
+            let back = read_tree(&xot, &mut vocab, r2);
+            sink.emit(request, format!("ok {} {}", crate::common::enc(&s), back.wire()));
+            if back != original {
+                let d = first_difference(&original, &back, &mut vec![]).unwrap_or("?".into());
+                sink.fail("C01", "C01:params-roundtrip-differs", &format!("first difference {} ; reparsed {}", d, back.wire()), &replay);
+            } else if !xot.deep_equal(root, r2) {
+                sink.fail("C01", "C01:params-roundtrip-differs", "deep_equal(original, reparsed) = false on identical read-backs", &replay);
+            } else {
+                sink.stat("rt.params.equal");
+            }
+        }
+    }
+}
+
 fn at_mut<'a>(t: &'a mut GTree, p: &[usize]) -> &'a mut GTree {
     let mut cur = t;
     for &i in p {
@@ -508,10 +672,15 @@ fn mutated_case(rng: &mut Rng, sink: &mut Sink) {
 
 pub fn run(seed: u64, count: usize, _tier: &str, sink: &mut Sink) {
     let mut rng = Rng::new(seed ^ 0x0C01);
+    // own stream for the parameter cases: the cases above are the ones they were
+    let mut prng = Rng::new(seed ^ 0xC01_CDA7A);
     for i in 0..count {
         one_case(&mut rng, sink, i % 50 == 0);
         if i % 4 == 0 {
             mutated_case(&mut rng, sink);
+        }
+        if i % 2 == 0 {
+            params_case(&mut prng, sink);
         }
     }
 }
